@@ -23,7 +23,7 @@ RULE = "instances = decide_preempt call sites x reaching valuations, victim-sele
 
 def check(ctx):
     P = ctx.program
-    iters = (0, 1, 2) if ctx.tier == "thorough" else (0, 1)
+    iters = (0, 1)
     views = family_views(P, "Node")
     call_sites(ctx, P, views, iters)
     victim(ctx, P, views)
